@@ -30,10 +30,15 @@ TPL = ("TPLGaussian", "TPLExponential", "TPLStable")
 COMPACT = ("Cubic", "Linear", "Circular", "Spherical", "HyperSpherical", "SuperSpherical", "TPLSimple")
 
 # normalised lags: 0, tiny (around the isclose window 1e-8), inside, range edge h = 1, beyond, far tail
-LAGS_Q = [0.0, 1e-300, 1e-30, 1e-16, 1e-12, 1e-10, 5e-9, 1e-8, 1.01e-8, 2e-8, 1e-6, 1e-5, 1e-3, 0.1, 0.5, 0.9,
+# (the tiniest lag is 1e-150: squares of smaller lags underflow in double precision, which is rounding of the argument)
+LAGS_Q = [0.0, 1e-150, 1e-30, 1e-16, 1e-12, 1e-10, 5e-9, 1e-8, 1.01e-8, 2e-8, 1e-6, 1e-5, 1e-3, 0.1, 0.5, 0.9,
           1 - 1e-12, 1.0, 1 + 1e-12, 1.5, 3.0, 5.5, 10.0, 30.0, 100.0, 1e3, 1e6]
-LAGS_T = sorted(set(LAGS_Q + [1e-200, 1e-100, 1e-50, 1e-20, 1e-15, 1e-14, 1e-13, 1e-11, 1e-9, 1e-7, 3e-6, 3e-5, 1e-4, 1e-2,
+LAGS_T = sorted(set(LAGS_Q + [1e-100, 1e-50, 1e-20, 1e-15, 1e-14, 1e-13, 1e-11, 1e-9, 1e-7, 3e-6, 3e-5, 1e-4, 1e-2,
                               0.3, 0.7, 0.99, 1.01, 2.0, 5.4, 5.6, 29.9, 30.1, 1e4]))
+
+# classes for which scipy.optimize.root (hybr, started at per * len_rescaled) is known not to converge for some
+# parameters (see known_findings.d/C03.json); a wrong percentile lag of any other class is reported under its own key
+ROOT_FAILS = ("JBessel", "TPLSimple", "SuperSpherical", "Integral")
 
 TOL = 1e-9          # DESIGN 3.4: values through libm / scipy special functions, relative to the scale of the quantity
 
@@ -72,7 +77,7 @@ def opt_values(name, dim, rng, tier):
     if name == "Matern":
         return [dict(nu=v) for v in [0.2, 0.5, 1.0, 2.5, 19.9, 20.0, 20.1, 30.0] + [lu(0.2, 20.0) for _ in range(n_rand)]]
     if name == "Integral":
-        return [dict(nu=v) for v in [0.01, 0.5, 1.0, 2.0, 10.0, 49.9, 50.0] + [lu(0.05, 50.0) for _ in range(n_rand)]]
+        return [dict(nu=v) for v in [0.01, 0.5, 1.0, 2.0, 10.0, 23.9998, 49.9, 50.0] + [lu(0.05, 50.0) for _ in range(n_rand)]]
     if name == "Rational":
         return [dict(alpha=v) for v in [0.5, 1.0, 2.2, 50.0] + [lu(0.5, 50.0) for _ in range(n_rand)]]
     if name == "SuperSpherical":
@@ -85,13 +90,29 @@ def opt_values(name, dim, rng, tier):
         lo = (dim + 1) / 2
         return [dict(nu=v) for v in [lo, lo + 0.4, 10.0, 50.0] + [lo + lu(0.01, 40.0) for _ in range(n_rand)]]
     if name in ("TPLGaussian", "TPLExponential"):
-        hs = [0.11, 0.25, 0.5, 0.99] + [float(rng.uniform(0.1, 1.0)) for _ in range(n_rand)]
+        hs = ([0.11, 0.25, 0.5, 0.99] if tier == "thorough" else [0.11, 0.5]) + [float(rng.uniform(0.1, 1.0)) for _ in range(n_rand)]
         return [dict(hurst=h, len_low=l) for h in hs for l in (0.0, 1e-9, 0.3, 5.0)]
     if name == "TPLStable":
-        hs = [0.11, 0.5, 0.99] + [float(rng.uniform(0.1, 1.0)) for _ in range(n_rand)]
+        hs = ([0.11, 0.5, 0.99] if tier == "thorough" else [0.11]) + [float(rng.uniform(0.1, 1.0)) for _ in range(n_rand)]
         al = [0.3, 1.0, 1.5, 2.0] if tier == "thorough" else [0.3, 1.5, 2.0]
-        return [dict(hurst=h, len_low=l, alpha=a) for h in hs for l in (0.0, 0.3, 5.0) for a in al]
+        return [dict(hurst=h, len_low=l, alpha=a) for h in hs for l in ((0.0, 1e-9, 0.3, 5.0) if tier == "thorough" else (0.0, 0.3)) for a in al]
     return [dict()]
+
+
+def primary_dim(name):
+    return [n for n, _, _ in CLASSES].index(name) % 3 + 1
+
+
+LAGS_SHORT = [0.0, 1e-9, 1e-3, 0.5, 1.0, 3.0, 1e3]
+
+
+def plan(name, dim, tier, lags):
+    """(lags, number of parameter sets) for a class in a dimension: the full lag list in every dimension in the thorough
+    tier; in the quick tier in one dimension per class (the functions do not depend on dim except through the bounds
+    and HyperSpherical, which gets all three)"""
+    if tier == "thorough" or name == "HyperSpherical" or dim == primary_dim(name):
+        return lags, (3 if tier == "thorough" else 2)
+    return LAGS_SHORT, 1
 
 
 def base_params(rng, tier):
@@ -201,21 +222,13 @@ def doc_formulas():
 def finding_key(name, opt, h, got, m=None):
     """key of the input pattern of a deviation from the documented formula (matched against known findings);
     anything else gets the generic key of its class"""
-    nan = not np.isfinite(got)
-    if name == "Matern" and opt["nu"] <= 20 and 0 < h <= 1e-12 and got == 0.0:
-        return "Matern:tiny-lag-returns-0"
-    if name == "Integral" and nan and h <= 1e-5:
+    if name == "Integral" and not np.isfinite(got) and h <= 1e-3:
         return "Integral:nan-near-origin-large-nu"
-    if name == "Integral" and 0 < h <= 1e-10:
-        return "exp_int:origin-window"
-    if name == "JBessel" and opt["nu"] > 30 and 1e-8 < h < 1e-3:
-        return "JBessel:underflow-near-origin-large-nu"
-    if name in TPL:
-        ll = float(opt.get("len_low", 0.0))
-        if 0 < ll <= 1.1e-8 * max(1.0, (m.rescale if m is not None else 1.0)):
-            return "TPL:small-len_low-treated-as-zero"
-        if h <= 1e-8 * (1 + (ll / m.len_scale if m is not None else 0)) * 1.5:
-            return "TPL:origin-window"
+    if name == "Integral" or name in TPL:
+        # exp_int(s, x) evaluates E_round(s) when np.isclose(s, round(s)) (rtol 1e-5)
+        sx = 1 + 0.5 * opt["nu"] if name == "Integral" else 1 + 2 * opt["hurst"] / {"TPLGaussian": 2.0, "TPLExponential": 1.0}.get(name, opt.get("alpha", 1.0))
+        if sx != round(sx) and abs(sx - round(sx)) <= 1e-8 + 1e-5 * abs(round(sx)):
+            return "exp_int:s-snapped-to-integer"
     return "%s:closed-form" % name
 
 
@@ -251,7 +264,10 @@ def run(ctx):
     for k in ("derive/_init_subclass", "cor (17 classes)", "correlation/covariance/variogram", "axis/yadrenko/spatial/nugget variants",
               "calc_integral_scale closed forms", "integral_scale setter", "var_factor", "percentile curve", "default_arg_from_bounds"):
         ctx.tie[k] = "hand model + correspondence"
+    import time
+    t0 = time.time()
     proofs_ok = ctx.proofs("props/C03.v")
+    t1 = time.time()
     tie_broken = []
     drv = None
     ok, out = C.build_driver("c03")
@@ -260,10 +276,14 @@ def run(ctx):
     else:
         tie_broken.append("extraction/driver build: " + out[-400:])
     state = dict(corr_mismatch=[])
+    t2 = time.time()
     try:
         if drv is not None:
             correspondence(ctx, rng, drv, state)
+        t3 = time.time()
         probes(ctx, rng)
+        ctx.notes.append("wall seconds: proofs (incl. waiting for the build lock) %.0f, driver build %.0f, correspondence %.0f, probes %.0f"
+                         % (t1 - t0, t2 - t1, t3 - t2, time.time() - t3))
     finally:
         if drv:
             drv.close()
@@ -300,6 +320,7 @@ def correspondence(ctx, rng, drv, state):
     for name, code, _ in CLASSES:
         for dim in (1, 2, 3):
             opts = opt_values(name, dim, rng, ctx.tier)
+            lags_d, nbp = plan(name, dim, ctx.tier, lags)
             for oi, opt in enumerate(opts):
                 p = slots(name, opt)
                 try:
@@ -308,7 +329,7 @@ def correspondence(ctx, rng, drv, state):
                     mismatch(ctx, state, "constructor raised %r" % e, desc(name, dim, opt))
                     continue
                 # A. cor on normalised lags
-                for h in lags:
+                for h in lags_d:
                     with np.errstate(all="ignore"):
                         want = f1(m0.cor(np.array([h])))
                     got = drv.call("cor", ("z", code), p[0], p[1], ("z", dim), float(h))
@@ -317,7 +338,7 @@ def correspondence(ctx, rng, drv, state):
                     if not same(want, got):
                         mismatch(ctx, state, "cor(%s)" % name, desc(name, dim, opt, h=h, impl=want, model=got))
                 # B. the three public functions, variants
-                for bi, bp in enumerate(bps if (oi < 4 or ctx.tier == "thorough") else bps[:2]):
+                for bi, bp in enumerate(bps[:nbp] if (oi < 4 or ctx.tier == "thorough") else bps[1:2]):
                     var, ls, nug, resc = bp
                     anis = [float(np.exp(rng.uniform(-1.5, 1.5))) for _ in range(dim - 1)]
                     angles = [float(rng.uniform(-np.pi, np.pi)) for _ in range({1: 0, 2: 1, 3: 3}[dim])]
@@ -328,7 +349,7 @@ def correspondence(ctx, rng, drv, state):
                         continue
                     pre = [("z", code), p[0], p[1], p[2], ("z", dim), float(m.var), float(m.len_scale), float(m.nugget), float(m.rescale)]
                     scale = m.var + m.nugget
-                    sub = lags if bi < 2 else lags[::3]
+                    sub = lags_d if bi < 2 else lags_d[::3]
                     for h in sub:
                         r = float(h * m.len_rescaled)
                         ra = np.array([r])
@@ -344,7 +365,7 @@ def correspondence(ctx, rng, drv, state):
                         if not (same(wn[0], gn[0], scale) and same(wn[1], gn[1], scale)):
                             mismatch(ctx, state, "vario_nugget/cov_nugget(%s)" % name, desc(name, dim, opt, bp, r=r, impl=wn, model=gn))
                     # axis / yadrenko / spatial variants on a few lags (signed)
-                    for h in (list(rng.choice(sub[3:], size=3, replace=False)) + [-0.37]):
+                    for h in (list(rng.choice(sub[2:], size=2, replace=False)) + [-0.37]):
                         r = float(h * m.len_rescaled)
                         for axis in range(dim):
                             with np.errstate(all="ignore"):
@@ -518,12 +539,13 @@ def probe_closed_forms(ctx, rng):
     n = 0
     for name, code, _ in CLASSES:
         for dim in (1, 2, 3):
+            lags_d, nbp = plan(name, dim, ctx.tier, lags)
             for oi, opt in enumerate(opt_values(name, dim, rng, ctx.tier)):
-                for bi, bp in enumerate(bps):
+                for bi, bp in enumerate(bps[:nbp] if nbp > 1 else bps[1:2]):
                     var, ls, nug, resc = bp
                     try:
                         m = make(name, dim, opt, var, ls, nug, resc)
-                        r = np.array(lags) * m.len_rescaled
+                        r = np.array(lags_d) * m.len_rescaled
                         with np.errstate(all="ignore"):
                             corr = np.asarray(m.correlation(r), dtype=float)
                             cov = np.asarray(m.covariance(r), dtype=float)
@@ -532,7 +554,7 @@ def probe_closed_forms(ctx, rng):
                         viol(ctx, "closed form", "implementation raised %r" % e, desc(name, dim, opt, bp), "%s:exception" % name)
                         continue
                     sill = m.var + m.nugget
-                    for h, ri, c, k, g in zip(lags, r, corr, cov, vario):
+                    for h, ri, c, k, g in zip(lags_d, r, corr, cov, vario):
                         ref = doc_correlation(name, ri, opt, dim, m.len_scale, m.rescale)
                         n += 1
                         ctx.count(("doc", name, dim, oi, bi, h) if h > 0 else None, hist=dict(stage="probe:closed-form", cls=name, dim=dim))
@@ -576,7 +598,9 @@ def probe_identities(ctx, rng):
                     bad = ~C_close_vec(corr[both], cor[both], 1.0)
                     if bad.any() or (np.isfinite(cor) != fin).any():
                         i = int(np.flatnonzero(both)[np.flatnonzero(bad)[0]]) if bad.any() else int(np.flatnonzero(np.isfinite(cor) != fin)[0])
-                        key = "TPL:cor-ignores-len_low" if (name in TPL and opt.get("len_low", 0) > 0) else "%s:identity-cor" % name
+                        key = ("TPL:cor-ignores-len_low" if (name in TPL and opt.get("len_low", 0) > 0) else
+                               "Integral:nan-near-origin-large-nu" if (name == "Integral" and not (np.isfinite(corr[i]) and np.isfinite(cor[i]))) else
+                               "%s:identity-cor" % name)
                         viol(ctx, "identity correlation", "correlation(r) != cor(rescale * r / len_scale)",
                              desc(name, dim, opt, bp, r=float(r[i]), correlation=float(corr[i]), cor=float(cor[i])), key)
                     # scalar call = array call
@@ -625,22 +649,55 @@ def probe_user_subclasses(ctx, rng):
                              dict(shape=shape, mask=mask, bp=bp, x=float(xs[i]), got=float(np.asarray(got[k])[i]), want=float(want[k][i])), "user:%s" % k)
 
 
-def exact_integral(name, opt, dim, mp):
-    """integral over [0, inf) of the documented normalised correlation cor(h) (independent of the class's own closed form)"""
+def exact_integral(name, opt, dim, mp, doc_cor=None):
+    """integral over [0, inf) of the DOCUMENTED normalised correlation cor(h), from integral tables (not from the
+    class's calc_integral_scale): Gamma / Beta integrals, int_0^inf x^nu K_nu(x) dx = 2^(nu-1) sqrt(pi) Gamma(nu+1/2),
+    int_0^inf E_s(u) u^(a-1) du = Gamma(a) / (a+s-1), int_0^inf t^-nu J_nu(t) dt = sqrt(pi) / (2^nu Gamma(nu+1/2))"""
+    half = mp.mpf(1) / 2
+    if name == "Gaussian":
+        return mp.sqrt(mp.pi) / 2
+    if name == "Exponential":
+        return mp.mpf(1)
+    if name == "Stable":
+        a = mp.mpf(opt["alpha"])
+        return mp.gamma(1 / a) / a
+    if name == "Matern":
+        nu = mp.mpf(opt["nu"])
+        if opt["nu"] > 20:
+            return mp.sqrt(mp.pi)          # the documented Gaussian limit exp(-(h/2)^2)
+        return mp.sqrt(mp.pi) * mp.gamma(nu + half) / (mp.gamma(nu) * mp.sqrt(nu))
+    if name == "Integral":
+        nu = mp.mpf(opt["nu"])
+        return nu * mp.sqrt(mp.pi) / (2 * (nu + 1))
+    if name == "Rational":
+        a = mp.mpf(opt["alpha"])
+        return mp.sqrt(a) * mp.beta(half, a - half) / 2
     if name == "Linear" or (name == "HyperSpherical" and dim == 1):
-        return mp.mpf(1) / 2
+        return half
     if name == "Spherical" or (name == "HyperSpherical" and dim == 3):
         return mp.mpf(3) / 8
     if name == "Cubic":
         return mp.mpf(35) / 96
     if name == "Circular" or (name == "HyperSpherical" and dim == 2):
         return 4 / (3 * mp.pi)
+    if name == "SuperSpherical":
+        return mp.quad(lambda x: doc_cor(name, x, opt, dim), [0, half, 1])     # smooth on the compact support
     if name == "TPLSimple":
         return 1 / (mp.mpf(opt["nu"]) + 1)
     if name == "JBessel":
         nu = mp.mpf(opt["nu"])
-        return mp.sqrt(mp.pi) * mp.gamma(nu + 1) / mp.gamma(nu + mp.mpf(1) / 2)
+        return mp.sqrt(mp.pi) * mp.gamma(nu + 1) / mp.gamma(nu + half)
     return None
+
+
+def exact_integral_tpl(name, opt, len_scale, rescale, mp):
+    """integral of the documented TPL correlation: each mode integrates to l * (2H/alpha) * Gamma(1/alpha) / (1 + 2H)"""
+    H = mp.mpf(opt["hurst"])
+    a = {"TPLGaussian": mp.mpf(2), "TPLExponential": mp.mpf(1)}.get(name, mp.mpf(opt.get("alpha", 1)))
+    ll = mp.mpf(opt["len_low"]) / mp.mpf(rescale)
+    lu = (mp.mpf(opt["len_low"]) + mp.mpf(len_scale)) / mp.mpf(rescale)
+    c = (2 * H / a) * mp.gamma(1 / a) / (1 + 2 * H)
+    return c * (lu ** (2 * H + 1) - ll ** (2 * H + 1)) / (lu ** (2 * H) - ll ** (2 * H))
 
 
 def probe_scales(ctx, rng):
@@ -648,9 +705,11 @@ def probe_scales(ctx, rng):
     mp.mp.dps = 30
     for name, code, _ in CLASSES:
         for dim in (1, 2, 3):
+            if ctx.tier != "thorough" and name != "HyperSpherical" and dim != primary_dim(name):
+                continue   # the scales do not depend on dim (only the bounds of the optional arguments do)
             opts = opt_values(name, dim, rng, ctx.tier)
             if ctx.tier != "thorough":
-                opts = opts[:: max(1, len(opts) // 4)]
+                opts = opts[:: max(1, len(opts) // 6)]
             for oi, opt in enumerate(opts):
                 bp = base_params(rng, "quick")[1 if (oi + dim) % 2 else 2]
                 var, ls, nug, resc = bp
@@ -661,19 +720,17 @@ def probe_scales(ctx, rng):
                     continue
                 # ---- integral scale = integral of the correlation
                 lr = m.len_rescaled
-                ref = exact_integral(name, opt, dim, mp)
-                if ref is not None:
-                    ref = ref * lr
-                elif name in TPL:
+                divergent = name == "Rational" and opt["alpha"] <= 0.5   # (1 + 2 h^2)^(-1/2) ~ 1/h: the integral is infinite
+                if divergent:
                     ref = None
-                    if ctx.tier == "thorough" or oi % 3 == 0:
-                        ref = mp.quad(lambda x: doc_correlation(name, x, opt, dim, m.len_scale, m.rescale), [0, lr / 10, lr, 10 * lr, mp.inf])
+                    ctx.count(("intscale", name, dim, oi), hist=dict(stage="probe:integral-scale", cls=name, dim=dim))
+                    if np.isfinite(m.integral_scale):
+                        viol(ctx, "integral scale", "Rational(alpha<=0.5) reports a finite integral scale %r for a divergent integral" % m.integral_scale,
+                             desc(name, dim, opt, bp), "Rational:integral-scale-divergent")
+                elif name in TPL:
+                    ref = exact_integral_tpl(name, opt, m.len_scale, m.rescale, mp)
                 else:
-                    if name == "Matern" and opt["nu"] <= 20 and not (ctx.tier == "thorough" or oi % 2 == 0):
-                        ref = None
-                    else:
-                        pts = [0, 1, mp.inf] if name in ("SuperSpherical",) else [0, 1, 10, mp.inf]
-                        ref = lr * mp.quad(lambda x: doc_cor(name, x, opt, dim), pts)
+                    ref = exact_integral(name, opt, dim, mp, doc_cor) * lr
                 if ref is not None:
                     try:
                         with np.errstate(all="ignore"):
@@ -684,14 +741,20 @@ def probe_scales(ctx, rng):
                     if got is not None:
                         ctx.count(("intscale", name, dim, oi), hist=dict(stage="probe:integral-scale", cls=name, dim=dim))
                         closed = code <= 5
-                        # closed forms: rounding only; quadrature classes: scipy quad's own default tolerance (1.5e-8) with margin
-                        tol = 1e-9 if closed else 1e-6
+                        # closed forms: rounding only.  Quadrature classes: QUADPACK qagi on a correlation with a derivative
+                        # kink at the range was observed to be off by up to 3e-6 (its requested 1.5e-8 is no guarantee for
+                        # non-smooth integrands); the package itself accepts 1e-3 (setter).  1e-4 is > 30x the observed error
+                        # and far below any formula error (wrong factor / exponent).
+                        tol = 1e-9 if closed else 1e-4
                         if not abs(got - float(ref)) <= tol * float(ref):
                             key = ("Matern:nu>20:integral-scale" if (name == "Matern" and opt["nu"] > 20) else
                                    "JBessel:integral-scale-quad" if name == "JBessel" else "%s:integral-scale" % name)
                             viol(ctx, "integral scale", "%s.integral_scale = %r but the integral of its documented correlation is %s" % (name, got, mp.nstr(ref, 15)),
                                  desc(name, dim, opt, bp, integral_scale=got, integral_of_correlation=mp.nstr(ref, 20)), key)
                 # ---- prescribing the integral scale
+                # (classes whose integral scale is not proportional to len_scale -- TPL with len_low > 0 -- or is infinite
+                #  refuse with the documented ValueError; that is not a wrong result)
+                linear = not divergent and not (name in TPL and opt.get("len_low", 0) > 0)
                 if (oi + dim) % 2 == 0 or ctx.tier == "thorough":
                     target = float(np.exp(rng.uniform(-2, 2)))
                     try:
@@ -699,14 +762,15 @@ def probe_scales(ctx, rng):
                             m2 = make(name, dim, opt, var, ls, nug, resc, integral_scale=target)
                             got = float(m2.integral_scale)
                         ctx.count(("setter", name, dim, oi), hist=dict(stage="probe:integral-scale-setter", cls=name, dim=dim))
-                        if not abs(got - target) <= (1e-9 if code <= 5 else 1e-6) * target:
+                        if not abs(got - target) <= (1e-9 if code <= 5 else 1e-4) * target:
                             viol(ctx, "integral scale setter", "integral_scale=%r prescribed, model reports %r" % (target, got),
                                  desc(name, dim, opt, bp, target=target, got=got), "JBessel:integral-scale-quad" if name == "JBessel" else "%s:integral-scale-setter" % name)
                         if name in TPL and not abs(m2.var - var) <= 1e-12 * var:
                             viol(ctx, "integral scale setter", "variance changed by prescribing the integral scale", desc(name, dim, opt, bp, target=target, var=float(m2.var)), "%s:setter-var" % name)
                     except ValueError as e:
-                        viol(ctx, "integral scale setter", "prescribing integral_scale=%r raised %s" % (target, e), desc(name, dim, opt, bp, target=target),
-                             "JBessel:integral-scale-quad" if name == "JBessel" else "%s:integral-scale-setter" % name)
+                        if linear:
+                            viol(ctx, "integral scale setter", "prescribing integral_scale=%r raised %s" % (target, e), desc(name, dim, opt, bp, target=target),
+                                 "JBessel:integral-scale-quad" if name == "JBessel" else "%s:integral-scale-setter" % name)
                 # ---- percentile scale: variogram(percentile_scale(per)) = nugget + per * var
                 for per in (0.5, 0.9, float(rng.uniform(0.05, 0.95))):
                     try:
@@ -718,9 +782,13 @@ def probe_scales(ctx, rng):
                         continue
                     ctx.count(("percentile", name, dim, oi, per), hist=dict(stage="probe:percentile", cls=name, dim=dim))
                     # root's default xtol 1.49e-8 relative in x; variogram slope <= O(var / len) -> 1e-6 * var with margin
-                    if not (x >= 0 and abs(g - (m.nugget + per * m.var)) <= 1e-6 * m.var):
+                    if not x >= 0:
+                        viol(ctx, "percentile scale", "percentile_scale(%g) = %r is not a lag (negative)" % (per, x),
+                             desc(name, dim, opt, bp, per=per, scale=x, variogram=g), "percentile:negative-lag")
+                    elif not abs(g - (m.nugget + per * m.var)) <= 1e-6 * m.var:
                         viol(ctx, "percentile scale", "variogram(percentile_scale(%g)) = %r, expected nugget + per*var = %r" % (per, g, m.nugget + per * m.var),
-                             desc(name, dim, opt, bp, per=per, scale=x, variogram=g), "%s:percentile" % name)
+                             desc(name, dim, opt, bp, per=per, scale=x, variogram=g),
+                             "%s:percentile-root-not-converged" % name if name in ROOT_FAILS else "%s:percentile" % name)
                 for per in (0.0, 1.0, -0.1, 1.5):
                     try:
                         m.percentile_scale(per)
@@ -769,8 +837,8 @@ def probe_variants(ctx, rng):
                                  desc(name, dim, opt, (var, ls, nug, resc), r=float(r[i]), axis=axis, anis=anis, got=float(a[i]), want=float(b[i])), "%s:axis-variant" % name)
                 # spatial: independent rotation (explicit 2D / Tait-Bryan 3D by the documented main axes)
                 pos = rng.normal(size=(dim, 6)) * m.len_rescaled
-                axes = np.asarray(m.main_axes(), dtype=float)  # columns = rotated main axes
-                comp = axes.T @ pos
+                axes = np.asarray(m.main_axes(), dtype=float)  # rows = rotated main axes
+                comp = axes @ pos
                 scl = np.array([1.0] + anis)[:, None]
                 rad = np.sqrt(((comp / scl) ** 2).sum(axis=0))
                 for tag, _, fsp, _, iso, sc in fs:
